@@ -562,6 +562,7 @@ type retPoint struct {
 	pc   string
 	st   *State
 	vals [][]string
+	pos  string
 }
 
 type Frame struct {
@@ -1217,13 +1218,31 @@ func (fr *Frame) enterLoop(li *loopInfo, pc string, st *State) (string, *State) 
 			st.m[n] = vc.fresh(n, vc.sortOfState(n))
 			li.havocked = append(li.havocked, n)
 		}
-		// ghost vars assigned by site clauses inside the loop
-		for _, g := range fr.loopGhostWrites(li) {
-			st.m[g] = vc.fresh(g, vc.sortOfState(g))
+	}
+	// ghost vars assigned by site clauses inside the loop (they survive heap havoc, so they are havocked explicitly)
+	for _, g := range fr.loopGhostWrites(li) {
+		st.m[g] = vc.fresh(g, vc.sortOfState(g))
+	}
+	// private locals written in the loop
+	for _, h := range fr.loopStoreHeaps(li) {
+		if strings.HasPrefix(h, "$l.") {
+			st.m[h] = vc.fresh(h, vc.sortOfState(h))
 		}
-		// map iterators advanced in loop
-		for it, key := range fr.iterVis {
-			_ = it
+	}
+	// map iterators advanced in the loop
+	for it, key := range fr.iterVis {
+		if rng, ok := it.(*ssa.Range); ok && li.blocks[rng.Block()] {
+			continue // iterator created inside the loop: initialised there
+		}
+		advanced := false
+		for b := range li.blocks {
+			for _, ins := range b.Instrs {
+				if nx, ok := ins.(*ssa.Next); ok && nx.Iter == it {
+					advanced = true
+				}
+			}
+		}
+		if advanced {
 			st.m[key] = vc.fresh(key, vc.sortOfState(key))
 		}
 	}
